@@ -504,7 +504,7 @@ pub fn run(c: &Case) -> Outcome {
     let n = a0.n;
     let mut obs = Obs::default();
     let salt = c.salt as u64 + 1;
-    let base = c.base % 11;
+    let base = c.base % 12;
     match (base, a0.directed) {
         (0, _) | (1, _) => {
             let a = tagged(&a0, false);
@@ -688,6 +688,42 @@ pub fn run(c: &Case) -> Outcome {
                 csr_ty!(Undirected)
             }
         }
+        (11, _) if n > 0 => {
+            // StableGraph<u8> filled to its edge limit (255 edges, no vacant slot), then one more insertion,
+            // which must be refused; the views describe the 255 edges
+            let mut a = AGraph { directed: a0.directed, n, edges: Vec::new() };
+            for i in 0..255usize {
+                let (x, y) = if a0.edges.is_empty() { (i % n, (i / n) % n) } else { let e = a0.edges[i % a0.edges.len()]; (e.0, e.1) };
+                a.edges.push((x, y, 1000 + i as i32));
+            }
+            macro_rules! full_ty {
+                ($ty:ty) => {{
+                    let mut g: petgraph::stable_graph::StableGraph<usize, i32, $ty, u8> = petgraph::stable_graph::StableGraph::default();
+                    let ids: Vec<NodeIndex<u8>> = (0..n).map(|i| g.add_node(i)).collect();
+                    for &(x, y, t) in &a.edges {
+                        g.add_edge(ids[x], ids[y], t);
+                    }
+                    let extra = guarded(|| g.try_add_edge(ids[0], ids[n - 1], 5000).ok());
+                    if let Ok(Some(_)) = extra {
+                        // (accepted: then it is an edge like any other)
+                        a.edges.push((0, n - 1, 5000));
+                    }
+                    let v = View::full(&a, ids.clone());
+                    let w = "StableGraph<u8> at its edge limit";
+                    run_checks!(&g, &v, w; c_nodes, c_node_refs, c_edge_refs, c_edge_indexable, c_neighbors, c_neighbors_directed, c_edges, c_edges_directed);
+                    c_count(&g, &v, w)?;
+                    c_edge_count(&g, &v, w)?;
+                    c_adj(&g, &v, w)?;
+                    obs.label("StableGraph<u8> at its edge limit");
+                }};
+            }
+            if a0.directed {
+                full_ty!(Directed)
+            } else {
+                full_ty!(Undirected)
+            }
+            obs.nontrivial = true;
+        }
         (_, true) => {
             let a = tagged(&a0, false);
             let mut g: List<i32, u32> = List::new();
@@ -696,6 +732,13 @@ pub fn run(c: &Case) -> Outcome {
             }
             for &(x, y, t) in &a.edges {
                 g.add_edge(x as u32, y as u32, t);
+            }
+            // part of the history: insertions with an endpoint just past the last node are refused
+            // (documented panic) and leave the structure as it was
+            if n > 0 {
+                let src = (c.salt as usize % n) as u32;
+                let _ = guarded(|| g.add_edge(src, n as u32, -1));
+                let _ = guarded(|| g.add_edge(n as u32, src, -2));
             }
             let ids: Vec<u32> = (0..n as u32).collect();
             let v = View::full(&a, ids.clone());
